@@ -6,6 +6,7 @@ the functions are read into DECISION TABLES over the facts the decision may depe
 
     GC_Mark_Item(ptr), GC_Mark_And_Recurse(ptr):  A  ptr is word aligned        Lo  ptr >= gc->minptr   Hi  ptr <= gc->maxptr
                                                   F  ptr is in the table         M   its entry is marked (only when F)
+                                                  T  type_of(ptr) is one of the types the code tests for (leaf types)
     root loop body (slot i):                      H  slot occupied               M   entry marked         R   entry is a root
 
 and the table  facts -> (mark bit set?, number of GC_Recurse calls)  is compared with the model's
@@ -250,6 +251,10 @@ class Reader:
         }
         if a in table:
             return table[a]
+        if re.fullmatch(r'type==[A-Z]\w*', a):
+            return ('T', True)          # the object's type is one of the types the code singles out (leaf types)
+        if re.fullmatch(r'type!=[A-Z]\w*', a):
+            return ('T', False)
         m = re.match(r'^(GC_\w+)\(gc,ptr\)(!=NULL|==NULL|<gc->nslots|>=gc->nslots)?$', a)
         if m and m.group(1) in self.lookups:
             k, suf = self.lookups[m.group(1)], m.group(2)
@@ -301,7 +306,7 @@ class Reader:
         if k == 'return':
             return True
         s = ''.join(st[1])
-        if s in ('structGC*gc=_gc', 'uintptr_tpval=(uintptr_t)ptr'):
+        if s in ('structGC*gc=_gc', 'uintptr_tpval=(uintptr_t)ptr', 'vartype=type_of(ptr)'):
             return False
         m = re.match(r'^(?:structGCEntry\*|size_t|uint64_t)(\w+)=(GC_\w+)\(gc,ptr\)$', s)
         if m and m.group(2) in self.lookups and self.lookups[m.group(2)] in ('entry', 'index'):
@@ -335,7 +340,7 @@ class Reader:
             eff['recurse'] += 1
             return False
         if s2 == 'GC_Mark_Item(gc,ptr)' and item_table is not None:
-            key = tuple(env[f] for f in ('A', 'Lo', 'Hi', 'F', 'M'))
+            key = tuple(env[f] for f in ITEM_FACTS)
             mk, rc = item_table[key]
             eff['mark'] = eff['mark'] or mk
             eff['recurse'] += rc
@@ -362,14 +367,16 @@ def row_s(env):
 
 
 # ----------------------------------------------------------------------------- the model's tables
-ITEM_FACTS = ('A', 'Lo', 'Hi', 'F', 'M')
+# T: the object's type is a leaf type (Int Float String ...).  A registered object is marked WHATEVER its type; leaf-ness
+# only prunes the recursion inside GC_Recurse, after the marking.
+ITEM_FACTS = ('A', 'Lo', 'Hi', 'F', 'M', 'T')
 ROOT_FACTS = ('H', 'M', 'R')
 
 
 def model_item():
     out = {}
-    for v in itertools.product([False, True], repeat=5):
-        A, Lo, Hi, F, M = v
+    for v in itertools.product([False, True], repeat=6):
+        A, Lo, Hi, F, M, T = v
         if not F and M:
             continue
         go = A and Lo and Hi and F and not M
@@ -380,7 +387,7 @@ def model_item():
 def model_mar(guarded=True):
     it, out = model_item(), {}
     for v in it:
-        A, Lo, Hi, F, M = v
+        A, Lo, Hi, F, M, T = v
         if guarded:
             out[v] = it[v] if F else (False, 1)
         else:
@@ -400,9 +407,15 @@ def model_root():
 
 
 def diff(facts, got, want):
-    """first differing row as text, or None"""
+    """first differing row as text, or None.  On a leaf type (T) GC_Recurse returns at once, so the number of GC_Recurse
+    calls is immaterial there: only the mark bit is compared in those rows."""
+    ti = facts.index('T') if 'T' in facts else None
+
+    def eff(v, e):
+        if e is None: return None
+        return (e[0], 0) if ti is not None and v[ti] else e
     for v in want:
-        if got.get(v) != want[v]:
+        if eff(v, got.get(v)) != eff(v, want[v]):
             g = got.get(v)
             return '%s: source %s, model mark=%d recurse=%d' % (
                 ' '.join('%s=%d' % (f, x) for f, x in zip(facts, v)),
